@@ -628,12 +628,19 @@ pub fn op_lsp(p: &[&str], out: &mut Vec<String>) {
             .get_filename(d.file)
             .map(|u| u.trim_start_matches("file:///w/").to_string())
             .unwrap_or_else(|| "nil".to_string());
+        // the range as the editor gets it (`to_lsp_diag`): zero-based line / character, end exclusive
+        use riscv_analysis_lsp::VerifLSPDiag;
+        let l = d.to_lsp_diag(&parser).diagnostic.range;
         out.push(format!(
-            "LSP sev={} title={} at={} file={}",
+            "LSP sev={} title={} at={} file={} lsp={}:{}-{}:{}",
             sev(&d.level),
             hex(&d.title),
             range_str(&d.range),
-            hex(&name)
+            hex(&name),
+            l.start.line,
+            l.start.character,
+            l.end.line,
+            l.end.character
         ));
     }
 }
